@@ -125,7 +125,7 @@ class C09(SeqProp):
     props_file = "Props/C09.v"
     focus = "mix"
     quick_cases = 320
-    thorough_cases = 5000
+    thorough_cases = 4000
     assumptions = [
         "'identical timeline' is compared as: channel order, channel ids, slot kinds and times, targets, pulse durations/phases/samples, EOM blocks",
     ]
